@@ -14,7 +14,7 @@ var sentinelErrors = map[string]bool{
 	"github.com/hslam/rpc.ErrShutdown": true, "github.com/hslam/rpc.ErrDial": true, "github.com/hslam/rpc.ErrTimeout": true,
 	"github.com/hslam/rpc.ErrStreamShutdown": true, "io.EOF": true, "io.ErrUnexpectedEOF": true,
 	"github.com/hslam/rpc.ErrorGOGOPB": true, "github.com/hslam/rpc.ErrorCODE": true, "github.com/hslam/rpc.ErrorMSGP": true,
-	"github.com/hslam/rpc.errTarget": true, "github.com/hslam/funcs.ZeroValue": true,
+	"github.com/hslam/rpc.errTarget": true, "github.com/hslam/rpc.errTruncated": true, "github.com/hslam/funcs.ZeroValue": true,
 }
 
 func (x *Exec) typeTag(t types.Type) *Term {
